@@ -21,6 +21,8 @@ import (
 	"net/http"
 	"sort"
 	"strings"
+	"sync"
+	"sync/atomic"
 	"testing"
 	"time"
 
@@ -282,6 +284,19 @@ func trimQ(b []byte) string {
 }
 
 type finding struct{ key, what string }
+
+// violate records a violation; the message and payload are only built for the
+// first few of a key (mon keeps three replays per key, the rest is counted).
+var violCount sync.Map
+
+func violate(r *mon.Run, i int, key string, what func() string, payload func() any) {
+	c, _ := violCount.LoadOrStore(key, new(atomic.Int64))
+	if c.(*atomic.Int64).Add(1) > 8 {
+		r.Violation(i, key, "", nil)
+		return
+	}
+	r.Violation(i, key, what(), payload())
+}
 
 func hasSemicolonInput(m *attrModel) bool {
 	return strings.Contains(m.key+m.value+m.domain+m.path, ";") || strings.Contains(strings.ToLower(m.path), "%3b")
@@ -635,7 +650,9 @@ func canon(k, v string) string {
 	}
 	// (an empty name is written without '=', so leading '=' are not significant either)
 	// and a pair without '=' is read as a value by some parsers and as a name by others)
-	return strings.Trim(strings.NewReplacer(" ", "", "\t", "", "\"", "").Replace(s), "=")
+	// ';' in a set value is either neutralised to SP or splits the pair: on the set side it is as
+	// insignificant as SP (a split still shows, as two texts that were never set).
+	return strings.Trim(strings.NewReplacer(" ", "", "\t", "", "\"", "", ";", "").Replace(s), "=")
 }
 
 var reqKeys = []string{"a", "b", "sid", "k", "admin", "x-y", "A"}
@@ -654,11 +671,13 @@ func requestCase(r *mon.Run, i int) {
 		defer func() { panicked = recover() }()
 		for o := 0; o < nops; o++ {
 			if len(model) > 0 && rnd.Intn(6) == 0 {
-				// delete: an existing key (as stored) or a random one
+				// delete: an existing key (as stored) or a random one. Keys containing ';' are not
+				// deleted: how such a key is stored is exactly what a repair changes.
 				var k string
 				if rnd.Intn(3) != 0 {
 					k = model[rnd.Intn(len(model))].k
-				} else {
+				}
+				if k == "" || strings.Contains(k, ";") {
 					k = reqKeys[rnd.Intn(len(reqKeys))]
 				}
 				if rnd.Intn(2) == 0 {
@@ -767,14 +786,16 @@ func requestCase(r *mon.Run, i int) {
 			if semi {
 				key = "request-cookie-semicolon"
 			}
-			r.Violation(i, key, fmt.Sprintf("%s sees cookie %q=%q which was not set; ops %v; Cookie header from %s", peer, s.k, s.v, ops, mon.Short(wire, 300)), payload)
+			violate(r, i, key, func() string {
+				return fmt.Sprintf("%s sees cookie %q=%q which was not set; ops %v; Cookie header from %s", peer, s.k, s.v, ops, mon.Short(wire, 300))
+			}, func() any { return payload })
 		}
 		if len(seen) > len(model) {
 			key := "request-cookie-count"
 			if semi {
 				key = "request-cookie-semicolon"
 			}
-			r.Violation(i, key, fmt.Sprintf("%s sees %d cookies, %d were set; ops %v", peer, len(seen), len(model), ops), payload)
+			violate(r, i, key, func() string { return fmt.Sprintf("%s sees %d cookies, %d were set; ops %v", peer, len(seen), len(model), ops) }, func() any { return payload })
 		}
 		if exact {
 			// as multisets: the order after a delete is C29's subject
